@@ -29,6 +29,7 @@ type CostCase struct {
 func init() {
 	registerReplay("c14-growth", func(c CostCase) Outcome { return checkC14Growth(c, nil) })
 	registerReplay("c14-absolute", checkC14Absolute)
+	registerReplay("c14-history", checkC14History)
 }
 
 const (
@@ -487,6 +488,32 @@ func TestC14_Families(t *testing.T) {
 	defer rec.Finish(t)
 	stop := startWatchdog(rec, t)
 	defer stop()
+	// the cost of a call is a function of its own arguments: a few small probe calls are measured
+	// before anything else has run in this process and again after all the long inputs
+	type probe struct {
+		entry, expr string
+		list        []string
+	}
+	var longList []string
+	for i := 0; i < 200; i++ {
+		longList = append(longList, cyc(c14IDs, i))
+	}
+	probes := []probe{{"satisfies", "MIT OR Apache-2.0", longList}, {"extract", "(MIT AND ISC) OR (Zlib AND GPL-2.0+)", nil}, {"validate", "GPL-2.0-or-later WITH Classpath-exception-2.0", longList[:50]}}
+	before := make([]costSample, len(probes))
+	for i, p := range probes {
+		before[i], _ = measure(p.entry, p.expr, p.list)
+	}
+	defer func() {
+		for i, p := range probes {
+			after, _ := measure(p.entry, p.expr, p.list)
+			rec.Case(true, "probe/"+p.entry, map[string]any{"probe": p.entry, "alloc_first_in_process": before[i].Alloc, "alloc_after_long_inputs": after.Alloc}, "history-probe")
+			if after.Alloc > 4*before[i].Alloc+(1<<20) {
+				c := CostCase{Family: "history-probe", Entry: p.entry, Expr: p.expr, List: p.list}
+				rec.Violate("c14-history", "C14/history-cost/"+p.entry,
+					fmt.Sprintf("%s(%q, %d entries) allocated %d KB as one of the first calls of the process and %d KB after long inputs had been handled: the cost of a call must depend on its own arguments only", p.entry, p.expr, len(p.list), before[i].Alloc>>10, after.Alloc>>10), c)
+			}
+		}
+	}()
 	for _, f := range c14Families {
 		for _, entry := range []string{"satisfies", "extract", "validate", "allowed"} {
 			max := f.maxQ
@@ -777,4 +804,20 @@ func TestC14_GeneratedFamilies(t *testing.T) {
 		}
 		rec.Case(true, sc.describe(), map[string]any{"schema": sc.describe(), "n=6": sc.build(6)}, "nest-"+sc.Nest, "op-"+sc.Op)
 	})
+}
+
+// checkC14History (replay): the probe call is measured first, then a long input is handled, then
+// the probe again.
+func checkC14History(c CostCase) Outcome {
+	before, _ := measure(c.Entry, c.Expr, c.List)
+	for _, f := range []string{"and-chain", "or-chain", "nesting", "long-list", "or-later-rewrites"} {
+		e, l := buildFamily(f, 4096)
+		call("satisfies", e, l)
+		call("extract", e, l)
+	}
+	after, _ := measure(c.Entry, c.Expr, c.List)
+	if after.Alloc > 4*before.Alloc+(1<<20) {
+		return fail("C14/history-cost/"+c.Entry, "%s(%q, %d entries) allocated %d KB first and %d KB after long inputs had been handled", c.Entry, c.Expr, len(c.List), before.Alloc>>10, after.Alloc>>10)
+	}
+	return pass()
 }
